@@ -10,6 +10,7 @@ pub mod failures;
 pub mod forms;
 pub mod history;
 pub mod matrix;
+pub mod origins;
 pub mod modpow;
 pub mod mul;
 #[cfg(feature = "rand")]
@@ -36,6 +37,7 @@ pub fn run(name: &str, r: &mut Rec) -> bool {
         "forms" => forms::run(r),
         "history" => history::run(r),
         "matrix" => matrix::run(r),
+        "origins" => origins::run(r),
         "mul" => mul::run(r),
         #[cfg(feature = "rand")]
         "rand" => rand_drv::run(r),
